@@ -47,6 +47,9 @@ def name(s: str) -> str:
     return '"' + s + '"'
 
 
+KEEP_REDUCE_ORDER = False
+
+
 def const(c) -> str:
     if isinstance(c, (bool, np.bool_)):
         return f"(bool {'#t' if c else '#f'})"
@@ -135,8 +138,10 @@ def sexpr(e) -> str:
         if op is None:
             raise SerError(f"unknown reduction {type(e.op).__name__}")
         body = sexpr(e.inner_expr)
-        # nest: first (sorted) variable outermost
-        for v, (lo, hi) in reversed(sorted(e.bounds.items())):
+        # nest: first (sorted) variable outermost; KEEP_REDUCE_ORDER: in the order of `e.bounds` (the order in
+        # which the loopy generator lists the reduction inames)
+        items = list(e.bounds.items()) if KEEP_REDUCE_ORDER else sorted(e.bounds.items())
+        for v, (lo, hi) in reversed(items):
             body = f"(reduce {op} {name(v)} {sexpr(lo)} {sexpr(hi)} {body})"
         return body
     raise SerError(f"unknown expression class {type(e).__name__}")
